@@ -10,7 +10,13 @@
      prim <k> <a> <b> <d> <g>    the single primitive prim_t k on Var 0..2 with cotangent g
             -> "<value> <d/da> <d/db> <d/dd>"
      crit <kind> <inverted> <normal> <scalars> <xp> <yp> <dv> <x>  -> constants the term compares against
-     classes <a> <b>   (Fin|PInf|NInf|NaN)  -> possible classes of log_prob = post(p_z + ld) *)
+     classes <a> <b>   (Fin|PInf|NInf|NaN)  -> possible classes of log_prob = post(p_z + ld)
+     chain <normal> <outer_inverted> <layers> <scalars> <arrays> <x>
+            log_prob of Transformed(StandardNormal | Normal, Chain[layers] | Invert(Chain[layers])) (Model.Expr.lp_chain);
+            layers = kind:inverted,...   scalars = bloc,bscale, then m,g,ic,lo,hi,loc,scale per layer
+            arrays = x_pos;y_pos;derivatives per layer (";" separated, "-" = empty)
+            -> "<raw value> <value after where(isnan,-inf)> <d/dx> <safeb> <margin>"
+     chaincrit <same arguments>  -> constants the composed term compares against *)
 open Safe
 open Conv
 open Fops
@@ -27,8 +33,25 @@ let grads en e g0 p n = List.init n (fun j -> vjp o en e g0 (tpar p j))
 let cls_of = function "Fin" -> Fin | "PInf" -> PInf | "NInf" -> NInf | "NaN" -> NaN | s -> failwith s
 let cls_str = function Fin -> "Fin" | PInf -> "PInf" | NInf -> "NInf" | NaN -> "NaN"
 
+let layers_of s =
+  List.map (fun t -> match String.split_on_char ':' t with
+    | [k; i] -> (kind_of k, bool_of i) | _ -> failwith ("layer " ^ t)) (String.split_on_char ',' s)
+let arrays_of s = List.map floats_of (String.split_on_char ';' s)
+let chain_env scalars arrays x = { vars = fl x :: floats_of scalars; pars = arrays_of arrays }
+
 let handle toks =
   match toks with
+  | ["chain"; normal; outer; layers; scalars; arrays; x] ->
+      let en = chain_env scalars arrays x in
+      let e = lp_chain (bool_of normal) (bool_of outer) (layers_of layers) in
+      let raw = eval o en e in
+      let isn = Float.is_nan raw in
+      let v = if isn then Float.neg_infinity else raw in
+      let gx = vjp o en e (if isn then 0. else 1.) (tvar 0) in
+      Printf.sprintf "%s %s %s %s %s" (hexf raw) (hexf v) (hexf gx) (bstr (safeb o en e)) (hexf (margin o en e))
+  | ["chaincrit"; normal; outer; layers; scalars; arrays; x] ->
+      let en = chain_env scalars arrays x in
+      str_floats (crit o en (lp_chain (bool_of normal) (bool_of outer) (layers_of layers)))
   | ["lp"; kind; inverted; normal; scalars; xp; yp; dv; x; pg] ->
       let xp = floats_of xp and yp = floats_of yp and dv = floats_of dv and scalars = floats_of scalars in
       let en = mkenv (fl x) scalars xp yp dv in
